@@ -10,6 +10,7 @@
 //!                                     RecordBuf and on the lazy record
 //!   line ver infodefs fmtdefs ns rec ftab valid   a whole record: written line, eager and lazy re-read, spans
 //!   ltxt ver infodefs fmtdefs ns hextext ftab     arbitrary line text through both readers (see c09_line.rs)
+//!   hw spec valid / hp hexlines                   headers against NV.Vcf.Header (see c09_hdr.rs)
 //! Implementation-only oracles (obs "-"):
 //!   rec  seed ver feat                generated header + record: write/read equality, lazy accessors
 //!                                     vs eager, spans, text fixed point
@@ -42,6 +43,8 @@ use val::*;
 mod rec;
 #[path = "../shared/c09_line.rs"]
 mod line;
+#[path = "../shared/c09_hdr.rs"]
+mod hdr;
 
 // -------------------------------------------------------------------------------------------
 // plumbing around the real reader / writer
@@ -516,6 +519,8 @@ fn run(c: &Case) -> Obs {
         "smp" => run_smp(c),
         "ptxt" => run_ptxt(c),
         "span" => run_span(c),
+        "hw" => hdr::run_hw(c),
+        "hp" => hdr::run_hp(c),
         "line" => line::run_line(c),
         "ltxt" => line::run_ltxt(c),
         "rec" => rec::run_rec(c),
@@ -536,6 +541,11 @@ fn generate(rng: &mut Rng, tier: &str, w: &mut CaseWriter) {
         line::gen_line(rng, rec::VERS[i % 4], mode, w);
     }
     line::gen_ltxt(rng, w, if thorough { 3000 } else { 250 });
+    // headers against NV.Vcf.Header
+    for i in 0..(if thorough { 4000 } else { 300 }) {
+        hdr::gen_hw(rng, w, i % 3 == 2);
+    }
+    hdr::gen_hp(rng, w, if thorough { 3000 } else { 250 });
 }
 
 fn main() {
